@@ -38,6 +38,12 @@ func checkC35(c *core.Ctx) {
 	ruleFeatureTables(c)
 	ruleSyncObjects(c)
 	ruleFeatureIndependentWriters(c)
+	// what a write returns (and logs) must not depend on MOVES_HISTORY: the post-commit volumes
+	// are copied before the MOVES_HISTORY-only unwinding loop (shared with C03); a per-ledger
+	// feature trigger fires for its own ledger only, so a ledger without the feature is not
+	// affected by a neighbour that has it (shared with C19)
+	ruleUnwindingLoop(c)
+	ruleTriggerWhen(c)
 }
 
 // ruleSyncObjects: every feature value that needs database objects has them in ledgerSetups.
